@@ -334,6 +334,19 @@ pub fn write_file_with(r: &mut Rng, c: &mut Counters, style: &Style, version: &s
                 hit(c, "xref.table");
             }
             XrefStyle::Stream => {
+                // occasionally a row of an UNDEFINED type (Table 18: a reference to the null object) for a number no revision
+                // uses — below the other numbers where the ids are sparse, so that the rows after it depend on its being
+                // skipped as a whole (the arm repaired by lopdf e3a88e7, former finding F-C02-b)
+                if style.lexical_freedom && r.chance(1, 4) {
+                    let mut used: std::collections::BTreeSet<u32> = std::collections::BTreeSet::new();
+                    for rv in revisions { for (n, _) in rv.objects.keys() { used.insert(*n); } }
+                    let free: Vec<u32> = (1..=max_num).filter(|n| !used.contains(n)).collect();
+                    let uid = if free.is_empty() { let u = next_free; next_free += 1; u } else { *r.pick(&free) };
+                    let t = 3 + r.below(253) as u8;
+                    let b = if r.chance(1, 2) { 0 } else { r.below(100) };
+                    entries.insert(uid, (t, r.below(1000), b));
+                    hit(c, "xrefstm_unknown_row");
+                }
                 let xid = next_free; next_free += 1;
                 entries.insert(xid, (1, xref_pos as u64, 0));
                 let size = next_free.max(max_num + 1);
